@@ -9,6 +9,10 @@ HELPERS = r'''
 #[verifier::external_body] pub fn vx_string_clone(s: &String) -> (r: String) ensures r@ == s@ { unimplemented!() }
 #[verifier::external_body] pub fn vx_char_count(s: &str) -> (r: usize) ensures r == s@.len() { unimplemented!() }
 #[verifier::external_body] pub fn vx_str_contains_char(s: &str, c: char) -> (r: bool) ensures r == s@.contains(c) { unimplemented!() }
+#[verifier::external_body] pub fn vx_str_ends_with_char(s: &str, c: char) -> (r: bool) ensures r == (s@.len() > 0 && s@.last() == c) { unimplemented!() }
+#[verifier::external_body] pub fn vx_str_starts_with_char(s: &str, c: char) -> (r: bool) ensures r == (s@.len() > 0 && s@[0] == c) { unimplemented!() }
+pub uninterp spec fn ascii_fold(s: Seq<char>) -> Seq<char>;
+pub assume_specification [str::eq_ignore_ascii_case] (a: &str, b: &str) -> (r: bool) ensures r == (ascii_fold(a@) == ascii_fold(b@));
 #[verifier::external_body] pub fn vx_string_eq_lit(s: &String, lit: &str) -> (r: bool) ensures r == (s@ == lit@) { unimplemented!() }
 #[verifier::external_body] pub fn vx_range_contains(lo: char, hi: char, inclusive: bool, x: &char) -> (r: bool)
     ensures r == (lo <= *x && (if inclusive { *x <= hi } else { *x < hi })) { unimplemented!() }
@@ -138,7 +142,7 @@ impl<'a> RegExpView<'a> {''')
     b.emit('pub open spec fn must_split_for_backslash(it: Seq<char>) -> bool { it.len() >= 2 && it.contains(\'\\\\\') }')
     b.slice_fn('split_rule', 'pub fn split_rule(it: &str) -> (contains_backslash: bool)', '    ' + st, 'cluster.rs::GraphemeCluster::from let contains_backslash', props=['C07'],
                epilogue='    contains_backslash', clauses=[Clause('cluster_split.rule', 'must_split_for_backslash(it@) ==> contains_backslash', ['C07', 'C01'])],
-               extra_rules=[('R5b', r'vx_char_count\(&it\)', 'vx_char_count(it)', ''), ('R12', r"\bit\.contains\('\\\\'\)", "vx_str_contains_char(it, '\\\\\\\\')", 'str::contains(char)')])
+               extra_rules=[('R5b', r'vx_char_count\(&it\)', 'vx_char_count(it)', '')])
     # repetition filter (C13)
     f, _, _ = X.fn(cl, 'create_ranges_of_repetitions')
     body, _, _ = X.block_after(f, '.filter(|range| ')
